@@ -398,7 +398,13 @@ func main() {
 	n := flag.Int("n", 100, "number of generated cases")
 	out := flag.String("out", "", "output file (JSON list of cases)")
 	replay := flag.String("replay", "", "JSON list of case inputs to run instead of generating")
+	launches := flag.Bool("launches", false, "run sequences of unified multi-GPU launches through the driver")
 	flag.Parse()
+
+	if *launches {
+		mainLaunches(*seed, *n, *out, *replay)
+		return
+	}
 
 	var cases []*Case
 	if *replay != "" {
@@ -431,6 +437,39 @@ func main() {
 		return
 	}
 	if err := os.WriteFile(*out, data, 0o644); err != nil {
+		fmt.Fprintln(os.Stderr, err)
+		os.Exit(2)
+	}
+}
+
+func mainLaunches(seed uint64, n int, out, replay string) {
+	var cases []*LCase
+	if replay != "" {
+		data, err := os.ReadFile(replay)
+		if err != nil {
+			fmt.Fprintln(os.Stderr, err)
+			os.Exit(2)
+		}
+		if err := json.Unmarshal(data, &cases); err != nil {
+			fmt.Fprintln(os.Stderr, err)
+			os.Exit(2)
+		}
+	} else {
+		r := vh.NewRng(seed ^ 0x4c41554e4348)
+		for i := 0; i < n; i++ {
+			cases = append(cases, genLaunches(r.Fork()))
+		}
+	}
+	for _, c := range cases {
+		runLaunches(c)
+		c.Coq = c.coq()
+	}
+	data, _ := json.Marshal(cases)
+	if out == "" {
+		fmt.Println(strings.TrimSpace(string(data)))
+		return
+	}
+	if err := os.WriteFile(out, data, 0o644); err != nil {
 		fmt.Fprintln(os.Stderr, err)
 		os.Exit(2)
 	}
